@@ -15,7 +15,8 @@ TRUSTED = ["theorems equilibrium_solves_augmented and zero_residual_minimiser_un
            "outward unit tangents) and C05 (the reported vector is a non-negative least-squares minimiser)",
            "circle-fit accuracy is an oracle bounded per coefficient (c02.fit_delta: 1e-4 / 1e-6 on arcs turning >= 0.04 rad, 5e-3 + 0.6 x turning on "
            "flatter or straight interfaces with >= 3 points, 1e-9 for two-point interfaces); the tolerance on the tensions is derived from the measured tangent error E by the perturbation bound "
-           "2 |E T| / sigma_min(augmented matrix) plus the solver termination tolerance (1e-9; 1e-4 for lsq / lsq_linear)"]
+           "(2 |E T| + eps_res) / sigma_min(augmented matrix), eps_res = residual left by the back-end at termination (1e-9 exact / nnls, "
+           "1e-6 lmfit, 1e-4 scipy lsq_linear); independently the reported tensions must fit the assembled equations as well as the true ones"]
 ASSUMPTIONS = ["Maxwell reciprocity: a Voronoi diagram balances under tension = site distance; Moebius maps preserve the angles at junctions"]
 TESTED_NOT_PROVED = ["the end-to-end recovery is evaluated on every generated tissue; the composition of C02/C05 with the two algebraic theorems is not mechanised"]
 IMPORTS = "From Forsys Require Import Model.CaseUtil.\n"
@@ -134,15 +135,32 @@ def check_case(res, spec, method, fit, ne, label):
                     bad_tangent = f"junction {v0}, interface {ids[0]}..{ids[-1]} ({len(ids)} pts): coefficient pair {(Mhat[r, j], Mhat[r + 1, j])} but tangent {tuple(t)}"
                 else:
                     worst_E = max(worst_E, e_)
-    tol_solver = 1e-4 if method in ("lsq", "lsq_linear") else 1e-9     # termination tolerances of lmfit / scipy.optimize.lsq_linear
+    # termination of the back-ends, in residual norm: exact / nnls 1e-9; lmfit (Levenberg-Marquardt) 1e-6; scipy lsq_linear (trust region,
+    # iteration cap) leaves up to ~2e-5 on these zero-residual systems (calibrated), 1e-4 allowed
+    eps_res = {"lsq": 1e-6, "lsq_linear": 1e-4}.get(method, 1e-9)
+    resid_excess = None
     if usable:
         Tv = np.array([Tcol[tuple(cq)] for cq in cols_used])
         A_aug = np.vstack([np.hstack([Mhat, np.ones((Mhat.shape[0], 1))]), np.hstack([np.ones(Mhat.shape[1]), [0.0]])])
         smin = float(np.linalg.svd(A_aug, compute_uv=False)[-1])
-        bound = 2 * float(np.linalg.norm((Mhat - Ma) @ Tv)) / smin if smin > 0 else float("inf")
-        tol = tol_solver + 1.01 * bound
+        et = float(np.linalg.norm((Mhat - Ma) @ Tv))
+        bound = (2 * et + eps_res) / smin if smin > 0 else float("inf")
+        tol = 1e-9 + 1.01 * bound
+        # the reported tensions (with the best non-negative multiplier) must fit the assembled equations at least as well as the true ones
+        xcol = {}
+        for be, g in zip(internal, got):
+            xcol[tuple(be.get_vertices_ids())] = g
+            xcol[tuple(be.get_vertices_ids()[::-1])] = g
+        xv = np.array([xcol[tuple(cq)] for cq in cols_used])
+        lam = -float(np.mean(Mhat @ xv)) if Mhat.shape[0] else 0.0        # the multiplier that fits best
+        if kw.get("allow_negatives", True) is False or method in ("lsq", "lsq_linear"):
+            lam = max(0.0, lam)
+        rhs = np.concatenate([np.zeros(Mhat.shape[0]), [float(Mhat.shape[1])]])
+        r_hat = float(np.linalg.norm(A_aug @ np.concatenate([xv, [lam]]) - rhs))
+        if r_hat > 1.01 * et + eps_res:
+            resid_excess = (r_hat, et)
     else:
-        tol = tol_solver
+        tol = eps_res
         bound = None
     res.case((tuple(tuple(x[1:]) for x in spec["vertices"][:5]), len(spec["cells"]), method, fit, ne), nontrivial=len(internal) >= 6)
     res.count(f"method={method or 'default'}")
@@ -161,6 +179,9 @@ def check_case(res, spec, method, fit, ne, label):
         m = mirrored[0]
         res.fail("oracle", f"{len(mirrored)} coefficient pair(s) mirrored in an axis (tangent and first segment in different quadrants), e.g. junction {m[0]}, "
                  f"interface {m[1]}..{m[2]}: {m[3]} for tangent {m[4]}; reported tensions off by {err:.3g}", replay, tag="D1-tangent-sign-forcing")
+    if resid_excess and not mirrored:
+        res.fail("oracle", f"the reported tensions leave residual {resid_excess[0]:.3g} in the assembled equations, the true tensions only {resid_excess[1]:.3g}: "
+                 f"not a minimiser (back-end {method or 'default'})", replay)
     if err > tol:
         k = int(np.argmax(np.abs(got - T)))
         res.fail("oracle", f"interface between cells {internal[k].own_cells}: reported {got[k]:.6f}, true tension / mean {T[k]:.6f} "
@@ -168,6 +189,17 @@ def check_case(res, spec, method, fit, ne, label):
 
 
 def tissues(rng, tier):
+    # curved tissues with an interface whose first segment at an interior junction is exactly axis-parallel, and in extreme length units
+    for j in range(2 if tier == "quick" else 10):
+        for _ in range(20):
+            base = gen.voronoi_tissue(rng, n=int(rng.integers(40, 70)), npts=int(rng.integers(1, 5)), mob_strength=float(rng.uniform(0.8, 1.5)))
+            if len(base["cells"]) >= 8:
+                break
+        al, who = gen.align_first_segment(base, rng)
+        if who is not None and len(al["cells"]) >= 8:
+            yield al, f"aligned{j}"
+        if j == 0 and len(base["cells"]) >= 8:
+            yield gen.similarity(base, scale=float(rng.choice([1e-6, 1e6])), theta=float(rng.uniform(0, 6.28))), "unit-scale"
     n = 6 if tier == "quick" else 100
     for k in range(n):
         kind = k % 3
